@@ -292,17 +292,17 @@ def run_case(ctx: Ctx, prog: list) -> list[str]:
     # long ones are compared at the end, at two read points chosen at random and at the first read
     # point (if any) where the long-lived objects differ from a fresh, never-read rebuild of the same
     # prefix (the reads in between are still performed on the implementation)
-    each = bool(mid) and (len(real) <= LONG or len(mid) <= 2)
-    mres = ctx.model.call({"op": "circ", "prog": real, "observe": ids, "each": each and len(mid) > 2})
+    every = len(mid) > 2 and len(real) <= LONG
+    mres = ctx.model.call({"op": "circ", "prog": real, "observe": ids, "each": every})
     if impl_res != mres["results"]:
         idx = next(i for i, (a, b) in enumerate(zip(impl_res, mres["results"])) if a != b)
         probs.append(f"corr: call #{idx} {real[idx][:4]} impl={impl_res[idx]} model={mres['results'][idx]}")
         return probs
-    if each and len(mid) > 2:
+    if every:
         compare = [(k, snapshot, mres["snaps"][k]) for k, snapshot in reads]
     else:
         chosen = set(range(len(mid)))
-        if not each:
+        if len(mid) > 2:
             ctx.count("reads:long-program-compared-at-subset")
             chosen = set(random.Random(f"{len(real)}-{len(prog)}").sample(range(len(mid)), 2))
             for j, (k, snapshot) in enumerate(mid):
@@ -405,7 +405,7 @@ def run(ctx: Ctx) -> None:
         for depth2 in (False, True):
             ctx.count("corpus:tiles-depth" + ("2" if depth2 else "1"))
             _one(ctx, directed_tiles(rng, depth2), sample=False)
-    N = ctx.n(250, 3500)
+    N = ctx.n(250, 3000)
     for i in range(N):
         if ctx.out_of_time():
             break
